@@ -387,10 +387,14 @@ async fn behave(matter: &Matter<'_>, mut ex: Exchange<'_>, log: &DevLog) -> Resu
     }
 }
 
+/// kinds: n = behaves as the first payload says; x = drops every exchange right after accepting it
+/// (with a delay: only what nobody else accepted in time); y = like x for the first exchange, then n
 async fn handler_loop(matter: &Matter<'_>, cfg: HandlerCfg, log: &DevLog) -> Result<(), Error> {
+    let mut first = true;
     loop {
         let ex = Exchange::accept_after(matter, cfg.delay).await?;
-        if cfg.kind == 'x' {
+        if cfg.kind == 'x' || (cfg.kind == 'y' && first) {
+            first = false;
             log.accepted_dropped.set(log.accepted_dropped.get() + 1);
             drop(ex);
             continue;
@@ -402,8 +406,10 @@ async fn handler_loop(matter: &Matter<'_>, cfg: HandlerCfg, log: &DevLog) -> Res
 fn run_e(case: &ECase) -> String {
     let net = Net::reliable();
     let crypto = test_only_crypto();
+    // the device retransmits fast (its ladders end within ~1.5 s); the controller is patient (~5.6 s)
     let det = e2e::dev_det(Some(SAI_MS), Some(SAI_MS));
-    let matter_a = e2e::new_matter(det, true);
+    let det_a = e2e::dev_det(Some(300), Some(300));
+    let matter_a = e2e::new_matter(det_a, true);
     let matter_b = e2e::new_matter(det, true);
     e2e::preset_case_session(&matter_a, &crypto, A_NODE, B_NODE, 1, 2, e2e::node_addr(B), 1, Default::default()).unwrap();
     e2e::preset_case_session(&matter_b, &crypto, B_NODE, A_NODE, 2, 1, e2e::node_addr(A), 1, Default::default()).unwrap();
@@ -510,33 +516,43 @@ fn run_e(case: &ECase) -> String {
                     }
                     Op::Wait(ms) => Timer::after(Duration::from_millis(ms as u64)).await,
                     Op::ProbeA(timeout) => {
+                        // like a real peer: a second attempt on a fresh exchange if the first one fails
                         let t0 = Instant::now();
-                        let p = mk_payload(1, i as u32, 0, 0, true, 0);
-                        let r = e2e::with_timeout(timeout as u64, async {
-                            let mut ex = Exchange::initiate(&matter_a, &crypto, NonZeroU8::new(1).unwrap(), B_NODE).await?;
-                            ex.send(MessageMeta::new(PROTO, 1, true), &p).await?;
-                            let rx = ex.recv().await?;
-                            let ok = rx.payload() == &p[..];
-                            drop(rx);
-                            ex.acknowledge().await?;
-                            Ok::<bool, Error>(ok)
-                        })
-                        .await;
-                        let ms = t0.elapsed().as_millis();
-                        probes.borrow_mut().push(match r {
-                            Some(Ok(true)) => format!("ok:{}", ms),
-                            Some(Ok(false)) => format!("wrong:{}", ms),
-                            Some(Err(e)) => format!("{}:{}", err_class(&e), ms),
-                            None => format!("unanswered:{}", ms),
-                        });
+                        let p = mk_payload(1, i as u32, 0, 0xffff, true, 0);
+                        let mut res = String::new();
+                        for _attempt in 0..2 {
+                            let r = e2e::with_timeout(timeout as u64, async {
+                                let mut ex = Exchange::initiate(&matter_a, &crypto, NonZeroU8::new(1).unwrap(), B_NODE).await?;
+                                ex.send(MessageMeta::new(PROTO, 1, true), &p).await?;
+                                let rx = ex.recv().await?;
+                                let ok = rx.payload() == &p[..];
+                                drop(rx);
+                                ex.acknowledge().await?;
+                                Ok::<bool, Error>(ok)
+                            })
+                            .await;
+                            let ms = t0.elapsed().as_millis();
+                            res = match r {
+                                Some(Ok(true)) => format!("ok:{}", ms),
+                                Some(Ok(false)) => format!("wrong:{}", ms),
+                                Some(Err(e)) => format!("{}:{}", err_class(&e), ms),
+                                None => format!("unanswered:{}", ms),
+                            };
+                            if res.starts_with("ok") {
+                                break;
+                            }
+                        }
+                        probes.borrow_mut().push(res);
                     }
                     Op::ProbeG { sess, timeout } => {
+                      let t00 = Instant::now();
+                      let mut res = "unanswered".to_string();
+                      for _attempt in 0..2 {
                         fresh_exid += 1;
                         let exid = fresh_exid;
                         let t0 = Instant::now();
                         let p = mk_payload(1, i as u32, sess, exid, true, 0);
                         ghost_send(sess, exid, true, true, None, 'o', &p);
-                        let mut res = "unanswered".to_string();
                         while t0.elapsed().as_millis() < timeout as u64 {
                             let got = net
                                 .tap()
@@ -554,12 +570,16 @@ fn run_e(case: &ECase) -> String {
                             let ack = last_dev_ctr(sess, exid);
                             ghost_send(sess, exid, true, false, ack, 'a', &[]);
                         }
-                        probes.borrow_mut().push(format!("{}:{}", res, t0.elapsed().as_millis()));
+                        if res == "ok" {
+                            break;
+                        }
+                      }
+                      probes.borrow_mut().push(format!("{}:{}", res, t00.elapsed().as_millis()));
                     }
                 }
             }
-            // settle: closer wait + slack
-            Timer::after(Duration::from_millis(250)).await;
+            // settle: accept deadline + closer wait + slack
+            Timer::after(Duration::from_millis(1250)).await;
             // tables of the device while its tasks and handlers are still alive
             let mut t: Vec<String> = matter_b.with_state(|st| {
                 st.verif_sessions()
@@ -574,7 +594,7 @@ fn run_e(case: &ECase) -> String {
             *final_tables.borrow_mut() = t.join("");
             Ok::<(), Error>(())
         };
-        match select4(pin!(nodes), pin!(pool), pin!(select(pin!(script), pin!(acker))), pin!(Timer::after(Duration::from_secs(40)))).await {
+        match select4(pin!(nodes), pin!(pool), pin!(select(pin!(script), pin!(acker))), pin!(Timer::after(Duration::from_secs(60)))).await {
             embassy_futures::select::Either4::First(r) => format!("transport-exit:{:?}", r.map_err(|e| e.code())),
             embassy_futures::select::Either4::Second(r) => format!("pool-exit:{:?}", r.map_err(|e| e.code())),
             embassy_futures::select::Either4::Third(_) => "done".to_string(),
